@@ -233,6 +233,8 @@ func c13Values() []namedVal {
 	return []namedVal{
 		{"uint", rc.Int(42)}, {"zero", rc.Int(0)}, {"nint", rc.Int(-7)},
 		{"tstr-plain", rc.Text("abc")}, {"tstr-type/subtype", rc.Text("text/plain")}, {"tstr-padded", rc.Text(" a/b")},
+		{"tstr-padded-tail", rc.Text("a/b ")}, {"tstr-tab-padded", rc.Text("\ta/b")}, {"tstr-newline-tail", rc.Text("a/b\n")}, {"tstr-crlf-tail", rc.Text("a/b; c=d\r\n")},
+		{"tstr-inner-whitespace", rc.Text("a/b;\tc=d")},
 		{"tstr-two-slashes", rc.Text("a/b/c")}, {"tstr-empty", rc.Text("")}, {"tstr-with-param", rc.Text("a/b; c=d")},
 		{"bstr", rc.Bytes([]byte{1, 2})}, {"bstr-empty", rc.Bytes(nil)}, {"bstr-nil-slice", rc.Val{K: rc.KBytes, B: rc.Hex{}, Nil: true}},
 		{"array-empty", rc.Array()}, {"array-self", rc.Val{K: rc.KRaw}}, // array-self is replaced by [label] per cell
